@@ -18,14 +18,14 @@ tvars == <<ovars, l, failed>>
 CheckNames == <<"NeverAhead", "NoNegativeDelta", "Conservation", "IdleCycleSilent", "GaugeAuthentic", "GaugeFresh",
                 "GaugeCountBound", "ReacquireFresh", "CloseBarrier", "QuietAfterClose", "ReporterClosedOnce",
                 "ReporterClosedAfterFlush", "TimersSynchronousOnce", "NoCrash", "LoopEnded", "CloseErrorPropagated",
-                "InertAfterClose", "SameObject", "AllocateOnce">>
+                "InertAfterClose", "SameObject", "AllocateOnce", "KeepsOwnBounds">>
 CheckName(i) == CheckNames[i]
 Holds(i) == CASE i = 1 -> NeverAhead [] i = 2 -> NoNegativeDelta [] i = 3 -> Conservation [] i = 4 -> IdleCycleSilent
               [] i = 5 -> GaugeAuthentic [] i = 6 -> GaugeFresh [] i = 7 -> GaugeCountBound [] i = 8 -> ReacquireFresh
               [] i = 9 -> CloseBarrier [] i = 10 -> QuietAfterClose [] i = 11 -> ReporterClosedOnce
               [] i = 12 -> ReporterClosedAfterFlush [] i = 13 -> TimersSynchronousOnce [] i = 14 -> NoCrash
               [] i = 15 -> LoopEnded [] i = 16 -> CloseErrorPropagated [] i = 17 -> InertAfterClose
-              [] i = 18 -> SameObject [] i = 19 -> AllocateOnce
+              [] i = 18 -> SameObject [] i = 19 -> AllocateOnce [] i = 20 -> KeepsOwnBounds
 (* the invariants an event can break (each is a function of ghost state that only these events change) *)
 Relevant(r) ==
   CASE r.e = "dlv" /\ r.k = "counter" -> {1, 2, 4, 10}
@@ -40,7 +40,8 @@ Relevant(r) ==
     [] r.e = "timerret" -> {13}
     [] r.e = "panic" \/ r.e = "deadlock" -> {14}
     [] r.e = "got"      -> {18}
-    [] r.e = "alloc"    -> {10, 19}
+    [] r.e = "alloc"    -> {19}
+    [] r.e = "histbounds" -> {20}
     [] OTHER -> {}
 
 TInit == ObsInit(0) /\ l = 1 /\ failed = FALSE
@@ -63,6 +64,7 @@ Apply(r) ==
     [] r.e = "subret"  -> ObsSubReturn(r.t, r.o, r.inert)
     [] r.e = "got"     -> ObsGot(r.k, r.id, r.so, r.obj)
     [] r.e = "alloc"   -> ObsAlloc(r.k, r.id)
+    [] r.e = "histbounds" -> ObsHistBounds(r.wkind, r.wsorted, r.ukind, r.usorted)
     [] r.e = "panic" \/ r.e = "deadlock" -> ObsCrash(r.e)
     [] r.e = "rootclosecall" -> ObsRootCloseCall(r.t)
     [] r.e = "rootcloseret"  -> ObsRootCloseReturn(r.t, r.err, r.experr, r.loopended)
